@@ -54,3 +54,48 @@ Example c12_scala_nonvacuous :
   c12_sc_observe uc_exec c12_sc_cfg0 c12_nonvac_pd =
     Ok ([lit "UShort"; lit "UByte"], [lit "UByte"; lit "UShort"; lit "UInt"; lit "ULong"]).
 Proof. vm_compute. repeat split; reflexivity. Qed.
+
+(* ---- Kotlin: witnesses of the two classes ---- *)
+From TS Require Import Model.Lang.Kotlin Model.Lang.Go Proofs.C12_Kotlin Proofs.C12_Go.
+Definition c12_kt_cfg (pkg : str) : kt_config :=
+  {| kt_package := pkg; kt_module_name := []; kt_prefix := []; kt_type_mappings := []; kt_no_version_header := true; kt_version := [] |}.
+Definition c12_kt_inline_pd : parsed :=
+  {| p_structs := []; p_enums := [];
+     p_aliases := [{| aid := c12_mkid (lit "Id"); agenerics := []; atype := RPrim PString; acomments := [];
+                      adecs := [(DKKotlin, [lit "JvmInline"])]; aredacted := false |}];
+     p_consts := []; p_type_names := []; p_errors := []; p_imports := [] |}.
+
+Theorem c12_kotlin_empty_package_refuted :
+  c12_kt_known (c12_kt_cfg []) c12_nonvac_pd = Some "C12-kotlin-empty-package"%string /\
+  c12_kt_observe uc_exec (c12_kt_cfg []) c12_nonvac_pd = Ok ([lit "Serializable"], []) /\
+  c12_good [lit "Serializable"] [] = false.
+Proof. vm_compute. repeat split; reflexivity. Qed.
+
+Theorem c12_kotlin_jvminline_refuted :
+  c12_kt_known (c12_kt_cfg (lit "com.p")) c12_kt_inline_pd = Some "C12-kotlin-jvminline"%string /\
+  c12_kt_observe uc_exec (c12_kt_cfg (lit "com.p")) c12_kt_inline_pd =
+    Ok ([lit "Serializable"; lit "JvmInline"], [lit "Serializable"; lit "SerialName"]) /\
+  c12_good [lit "Serializable"; lit "JvmInline"] [lit "Serializable"; lit "SerialName"] = false.
+Proof. vm_compute. repeat split; reflexivity. Qed.
+
+Example c12_kotlin_nonvacuous :
+  c12_kt_known (c12_kt_cfg (lit "com.p")) c12_nonvac_pd = None /\
+  c12_kt_observe uc_exec (c12_kt_cfg (lit "com.p")) c12_nonvac_pd = Ok ([lit "Serializable"], [lit "Serializable"; lit "SerialName"]).
+Proof. vm_compute. split; reflexivity. Qed.
+
+(* ---- Go: non-vacuity (OffsetDateTime four levels deep in a payload of a tagged enum) ---- *)
+Definition c12_go_cfg0 : go_config :=
+  {| go_package := lit "p"; go_type_mappings := []; go_uppercase_acronyms := []; go_no_version_header := true;
+     go_no_pointer_slice := false; go_version := [] |}.
+Definition c12_go_pd : parsed :=
+  {| p_structs := [];
+     p_enums := [EAlgebraic (lit "type") (lit "content")
+                   {| eid := c12_mkid (lit "E"); egenerics := []; ecomments := [];
+                      evariants := [VTuple (RVec (ROption (RHashMap (RPrim PString) (RVec (RPrim PDateTime)))))
+                                           {| vid := c12_mkid (lit "A"); vcomments := [] |}];
+                      edecs := []; erecursive := false; eredacted := false |}];
+     p_aliases := []; p_consts := []; p_type_names := []; p_errors := []; p_imports := [] |}.
+Example c12_go_nonvacuous :
+  c12_go_dom c12_go_cfg0 (items_of c12_go_pd) = true /\
+  c12_go_observe uc_exec c12_go_cfg0 c12_go_pd = Ok ([lit "json"; lit "time"], [lit "json"; lit "time"]).
+Proof. vm_compute. split; reflexivity. Qed.
